@@ -7,6 +7,7 @@ PROP = dict(
            quick_timeout=900, thorough_timeout=3400, confirm='flaky', confirm_runs=5),
         rc('C12_stress_asan', src='harness/C12_stress.cpp', set='asan', quick_workers=2, thorough_workers=4,
            quick_timeout=900, thorough_timeout=3400, confirm='flaky', confirm_runs=5),
+        rc('C12_graph', quick_workers=2, thorough_workers=4, quick_timeout=600, thorough_timeout=3400),
     ],
     floor=dict(quick=500, thorough=3000),
     technique='schedule enumeration (stateless DFS with sleep sets / preemption bounding) and generated schedules on a deterministic scheduler driven by ASL_VERIF hook points, plus randomized stress under ThreadSanitizer and AddressSanitizer',
